@@ -2325,3 +2325,137 @@ int main(void) {
 }
 ''')
     return '\n'.join(H)
+
+
+# ---------------------------------------------------------------------------
+# TL: the generated tables reader on a file image whose table contents are solver variables
+
+def tload_harness(g, cfg, spec, layout, w1, w2, n=2, cut=False, witness=False, cut_at=0):
+    """layout: sequence of 'W' (the set named for this scanner) and 'O' (a set with another name).
+    The wanted set holds table YYTD_ID_ACCEPT (n elements of width w1) and YYTD_ID_EC (n elements of
+    width w2); the other sets hold one YYTD_ID_BASE table.  Element bytes are symbolic."""
+    pre = r'''
+#undef feof
+static size_t vp_fread(void *p, size_t sz, size_t nm, FILE *fp);
+static int vp_feof(FILE *fp); static int vp_fseek(FILE *fp, long off, int wh);
+#define fread vp_fread
+#define feof vp_feof
+#define fseek vp_fseek
+'''
+    h = common_head(g, cfg, spec, 1)
+    marker = '#include "%s"' % os.path.basename(g.cpath)
+    h = h.replace(marker, pre + '\n' + marker)
+    h = h.replace(ALLOC, r'''
+static int vp_live;
+void *yyalloc(VP_SIZE_T n VP_ALLOC_EXTRA) { void *p = malloc(n); VP_ASSUME(p != 0); vp_live++; return p; }
+void *yyrealloc(void *q, VP_SIZE_T n VP_ALLOC_EXTRA) { void *p = realloc(q, n); VP_ASSUME(p != 0); if (!q) vp_live++; return p; }
+void yyfree(void *p VP_ALLOC_EXTRA) { if (p) vp_live--; free(p); }
+''')
+    H = ['#define VP_N %d' % n, '#define VP_W1 %d' % w1, '#define VP_W2 %d' % w2,
+         '#define VP_NSETS %d' % len(layout), '#define VP_LAYOUT "%s"' % layout, '#define VP_CUT %d' % (1 if cut else 0), '#define VP_CUT_AT %d' % cut_at, h]
+    if witness:
+        H.append('#define VP_WITNESS 1')
+    H.append(r'''
+#undef fread
+#undef feof
+#undef fseek
+#define VP_FMAX 256
+unsigned char vpi_d1[VP_N * 4], vpi_d2[VP_N * 4], vpi_o[VP_NSETS * 4];
+int vpi_cut;
+static unsigned char vp_file[VP_FMAX];
+static int vp_len, vp_pos, vp_eof, vp_fake_file, vp_wend;
+
+/* independent writer: the documented layout (flex manual, "Tables File Format"), big-endian, 64-bit padding */
+static void put8(int v) { vp_file[vp_len++] = (unsigned char)v; }
+static void put16(int v) { put8(v >> 8); put8(v); }
+static void put32(unsigned v) { put16((int)(v >> 16)); put16((int)(v & 0xffff)); }
+static void putstr(const char *s) { for (int i = 0; i < 12; i++) { put8(s[i]); if (!s[i]) break; } }
+static void pad8(int base) { for (int i = 0; i < 8; i++) if ((vp_len - base) % 8) put8(0); }
+static int wflag(int w) { return w == 1 ? 0x01 : w == 2 ? 0x02 : 0x04; }
+static void put_table(int base, int id, int w, int n, const unsigned char *bytes) {
+  put16(id); put16(wflag(w)); put32(0); put32((unsigned)n);
+  for (int i = 0; i < 16; i++) if (i < n * w) put8(bytes[i]);
+  pad8(base);
+}
+static void put_set(const char *name, int wanted, int k) {
+  int base = vp_len;
+  put32(0xF13C57B1u); int hs_at = vp_len; put32(0); int ss_at = vp_len; put32(0); put16(0);
+  putstr("2.6.4"); putstr(name); pad8(base);
+  int hsize = vp_len - base;
+  if (wanted) { put_table(base, YYTD_ID_ACCEPT, VP_W1, VP_N, vpi_d1); put_table(base, YYTD_ID_EC, VP_W2, VP_N, vpi_d2); }
+  else put_table(base, YYTD_ID_BASE, 1, 4, vpi_o + 4 * k);
+  int ssize = vp_len - base;
+  vp_file[hs_at + 2] = (unsigned char)(hsize >> 8); vp_file[hs_at + 3] = (unsigned char)hsize;
+  vp_file[ss_at + 2] = (unsigned char)(ssize >> 8); vp_file[ss_at + 3] = (unsigned char)ssize;
+  if (wanted) vp_wend = vp_len;
+}
+static long vp_val(const unsigned char *b, int w, int i) {
+  /* element i, width w, big-endian two's complement */
+  if (w == 1) return (signed char)b[i];
+  if (w == 2) return (short)((b[2 * i] << 8) | b[2 * i + 1]);
+  return (int)(((unsigned)b[4 * i] << 24) | ((unsigned)b[4 * i + 1] << 16) | ((unsigned)b[4 * i + 2] << 8) | b[4 * i + 3]);
+}
+
+static size_t vp_fread(void *p, size_t sz, size_t nm, FILE *fp) {
+  VP_ASSERT(fp == (FILE *)&vp_fake_file, "reads go to the stream given to yytables_fload");
+  size_t want = sz * nm, have = (size_t)(vp_len - vp_pos);
+  VP_ASSERT(want <= 64, "read request within the header/element sizes of this file");
+  size_t got = want <= have ? want : have;
+  for (size_t i = 0; i < 64; i++) if (i < got) ((unsigned char *)p)[i] = vp_file[vp_pos + i];
+  vp_pos += (int)got;
+  if (got < want) vp_eof = 1;
+  return sz ? got / sz : 0;
+}
+static int vp_feof(FILE *fp) { return vp_eof; }
+static int vp_fseek(FILE *fp, long off, int wh) {
+  VP_ASSERT(wh == SEEK_CUR && off >= 0, "the reader only skips forward");
+  vp_pos += (int)off; if (vp_pos > vp_len) vp_pos = vp_len;
+  vp_eof = 0;
+  return 0;
+}
+
+int main(void) {
+  VP_DECL_SCANNER
+#ifdef REPLAY
+#include "vp_replay_set.inc"
+#else
+  for (int i = 0; i < VP_N * 4; i++) { vpi_d1[i] = nondet_uchar(); vpi_d2[i] = nondet_uchar(); }
+  for (int i = 0; i < VP_NSETS * 4; i++) vpi_o[i] = nondet_uchar();
+  vpi_cut = nondet_int();
+#endif
+  VP_INIT_SCANNER();
+  const char *lay = VP_LAYOUT;
+  int wanted_present = 0;
+  for (int k = 0; k < VP_NSETS; k++) {
+    if (lay[k] == 'W') { put_set(YYTABLES_NAME, 1, k); wanted_present = 1; }
+    else put_set("zztables", 0, k);
+  }
+#if VP_CUT
+  /* damaged file: cut anywhere before the end of the wanted set */
+  VP_ASSUME(vpi_cut == VP_CUT_AT && vpi_cut >= 0 && vpi_cut < vp_wend);   /* one query per offset: a symbolic length makes every read symbolic (no verdict in 300 s) */
+  vp_len = vpi_cut;
+  vp_expect_fatal = 1;                 /* the loader may also stop through the fatal-error hook */
+#endif
+  int rc = yytables_fload((FILE *)&vp_fake_file VP_A1);
+#if VP_CUT
+  VP_ASSERT(rc != 0, "loading a truncated file fails");
+#else
+  VP_ASSERT(rc == 0, "the set named for this scanner is found and loaded wherever it is in the file");
+  VP_ASSERT(yy_accept != 0 && yy_ec != 0, "every table of the wanted set is loaded");
+  for (int i = 0; i < VP_N; i++) {
+    VP_ASSERT(yy_accept[i] == (__typeof__(yy_accept[0]))vp_val(vpi_d1, VP_W1, i), "elements are widened with their sign (accept table)");
+    VP_ASSERT(yy_ec[i] == (__typeof__(yy_ec[0]))vp_val(vpi_d2, VP_W2, i), "elements are converted to the local element type (ec table)");
+  }
+  VP_ASSERT(yy_base == 0, "tables of a set with another name are not loaded");
+  VP_ASSERT(vp_pos == vp_wend, "the reader consumes exactly the wanted set");
+  yytables_destroy(VP_A0);
+  VP_ASSERT(vp_live == 0, "yytables_destroy releases every loaded table");
+  VP_ASSERT(yy_accept == 0 && yy_ec == 0, "table pointers are reset");
+#ifdef VP_WITNESS
+  VP_ASSERT(!(yy_accept == 0), "WITNESS: load and destroy completed");
+#endif
+#endif
+  return 0;
+}
+''')
+    return '\n'.join(H)
